@@ -309,6 +309,30 @@ theorem arr_setter_plus : ∀ m, setterBody (Base.new 24) Ex.arr = some m →
     plusForOr m ≠ m ∧ bodiesEquiv (setterCtx (Base.new 24) Ex.arr) (plusForOr m) m = true := by
   intro m h; injection h with h; subst h; decide +kernel
 
+/-- `raw ^ (raw & M)` for `raw & !M` (clearing the old bits of a setter by exclusive or): accepted -/
+def xorForAndNot : Expr → Expr
+  | .assertE c b => .assertE c (xorForAndNot b)
+  | .letE v e b => .letE v e (xorForAndNot b)
+  | .bin .or (.bin .and x (.not m)) y => .bin .or (.bin .bxor x (.bin .and x m)) y
+  | e => e
+
+theorem arr_setter_xor : ∀ m, setterBody (Base.new 24) Ex.arr = some m →
+    xorForAndNot m ≠ m ∧ bodiesEquiv (setterCtx (Base.new 24) Ex.arr) (xorForAndNot m) m = true := by
+  intro m h; injection h with h; subst h; decide +kernel
+
+/-- the bool getter written `((raw >> 126) & 1) == 1`: accepted; compared with the neighbouring bit or with `== 0`: not -/
+theorem top_equiv_eq : bodiesEquiv (getterCtx (Base.new 127))
+    (.bin .eqq (.bin .and (.bin .shr (.var .raw) (usz 126)) (one .u128)) (one .u128))
+    (.bin .ne (.bin .and (.var .raw) (.bin .shl (one .u128) (usz 126))) (.lit .u128 0)) = true := by decide +kernel
+example : bodiesEquiv (getterCtx (Base.new 127))
+    (.bin .eqq (.bin .and (.bin .shr (.var .raw) (usz 126)) (one .u128)) (.lit .u128 0))
+    (.bin .ne (.bin .and (.var .raw) (.bin .shl (one .u128) (usz 126))) (.lit .u128 0)) = false := by decide +kernel
+/-- `raw ^ raw` is the constant 0, `raw ^ value` has no normal form -/
+example : nf { rawTy := .u8 } ({ rawTy := .u8 } : Ctx).init (.bin .bxor (.var .raw) (.var .raw))
+    = some (.ok (.int .u8 (zeros 8))) := by decide +kernel
+example : nf { rawTy := .u8, arg := .int .u8 } ({ rawTy := .u8, arg := .int .u8 } : Ctx).init
+    (.bin .bxor (.var .raw) (.var .fieldValue)) = none := by decide +kernel
+
 /-- … whereas a sum that can carry has no normal form: no answer, never "equal" -/
 example : nf { rawTy := .u8 } ({ rawTy := .u8 } : Ctx).init (.bin .add (.var .raw) (.var .raw)) = none := by decide +kernel
 
